@@ -227,6 +227,18 @@ pub fn finish() -> i32 {
 
 /// A monitor decided that the process cannot continue (e.g. a call that will never return).
 pub fn abort_with_violation() -> ! {
+    // attach the tail of the recorded schedule (replay runs record it) to the witness
+    if sched::mode() == sched::Mode::Token && sched::tid() != sched::NOT_WORKER {
+        let inn = unsafe { sched::inner() };
+        if inn.record && !inn.trace.is_empty() {
+            let n = inn.trace.len();
+            let tail: Vec<String> = inn.trace[n.saturating_sub(400)..].iter().map(|(t, s)| format!("{}:{}", t, sched::site_name(*s))).collect();
+            with(|r| {
+                r.current["trace"] = json!(tail);
+                r.current["trace_note"] = json!(format!("last {} of {} recorded steps", tail.len(), n));
+            });
+        }
+    }
     let code = finish();
     std::process::exit(if code == 0 { 3 } else { code });
 }
